@@ -179,7 +179,35 @@ def run(case):
                 c.close(lab + "/total", "total mass per direction = density * volume", tot, np.full(nd, rho * V), rho * V)
                 off = np.array([M[i::nd, j::nd].sum() for i in range(nd) for j in range(nd) if i != j])
                 c.close(lab + "/decoupled", "no mass coupling between directions", off, 0 * off, rho * V)
-        return c.result(dict(case=case["key"], size=int(len(M))))
+        # call histories on one body: every sequence (depth <= 3) over {mass(), mass(density=r1), mass(density=r2),
+        # mass() followed by an in-place edit of the returned matrix}; every returned matrix must be the mass matrix of
+        # the density it was asked for (the body's own density for the default call)
+        ops = [("default", None, False), ("rho=0.9", 0.9, False), ("rho=4.0", 4.0, False), ("default+edit", None, True)]
+        for mkbody in ("SolidBody", "SolidBodyNearlyIncompressible"):
+            ref1 = None
+            for depth in (1, 2, 3):
+                for seq in itertools.product(range(len(ops)), repeat=depth):
+                    rho0 = 1.7
+                    B = fem.SolidBody(fem.NeoHooke(mu=1.0, bulk=2.0), field, density=rho0) if mkbody == "SolidBody" else fem.SolidBodyNearlyIncompressible(fem.NeoHooke(mu=1.0), field, bulk=50.0, density=rho0)
+                    if ref1 is None:
+                        ref1 = B.assemble.mass(density=1.0).toarray()
+                        B = fem.SolidBody(fem.NeoHooke(mu=1.0, bulk=2.0), field, density=rho0) if mkbody == "SolidBody" else fem.SolidBodyNearlyIncompressible(fem.NeoHooke(mu=1.0), field, bulk=50.0, density=rho0)
+                    for step, k in enumerate(seq):
+                        name, rho, edit = ops[k]
+                        M = B.assemble.mass() if rho is None else B.assemble.mass(density=rho)
+                        c.trans += 1
+                        want = (rho0 if rho is None else rho) * ref1
+                        c.traces += 1
+                        if np.abs(M.toarray() - want).max() > 1e-12 * np.abs(want).max():
+                            c.bad(f"{mkbody}/history={'.'.join(ops[i][0] for i in seq[:step + 1])}", "mass matrix returned after this call history is not density x (unit-density mass matrix)", float(np.abs(M.toarray() - want).max() / np.abs(want).max()), 0, 1e-12)
+                            break
+                        if edit:
+                            M *= 0.5
+                            M.data[:] += 1.0
+                    else:
+                        if depth > 1:
+                            c.nontrivial.append(f"{mkbody}/{seq}")
+        return c.result(dict(case=case["key"], size=int(len(M.toarray()))))
     if kind == "pressure":
         from .c13 import ELEMENT, face_area_vector, ref_faces
 
